@@ -22,6 +22,26 @@ def impl_oracle(c):
     return out
 
 
+def stress(tier):
+    def extra(res, scratch, harness):
+        import json, os
+        import common
+        n = 150 if tier != "thorough" else 3000
+        common.sh([harness, "c02stress", "-n", str(n), "-out", scratch], env=common.GOENV, timeout=3000)
+        scs = json.load(open(os.path.join(scratch, "c02stress.json")))
+        for sc in scs:
+            if sc["bad"]:
+                res.violation({"property": "C02", "kind": "a script blocked on or racing for a channel operation did not return after the context was cancelled",
+                               "scenario": sc["name"], "source": sc["src"], "channel_capacity": sc["cap"], "parallel_ExecuteContext_calls": sc["k"],
+                               "host_side": sc["serve"], "first_failure": sc["first_failure"], "failed_trials": sc["bad"], "trials": sc["trials"],
+                               "how_to_replay": "harness/c02stress.go: K goroutines run vm.ExecuteContext(ctx, env with `ch` bound to one shared Go channel, source); "
+                                                "a host goroutine drains / feeds the channel, stops, the context is cancelled; every call must return "
+                                                "\"execution interrupted\" within 2 s; schedule dependent, GOMAXPROCS >= 4"})
+        return {"channel_stress_scenarios": len(scs), "channel_stress_trials": sum(sc["trials"] for sc in scs),
+                "channel_stress_failures": sum(sc["bad"] for sc in scs), "channel_stress": [{"name": sc["name"], "trials": sc["trials"]} for sc in scs]}
+    return extra
+
+
 def run(tier, seed, replay=None):
     return interpcheck.run_interp_check(
         "C02", "c02", ("result", "trace", "polls"), {"quick": 1, "thorough": 100000}, tier, seed,
@@ -30,7 +50,10 @@ def run(tier, seed, replay=None):
              "module, for-in, ternary, ||) = 320 non-terminating programs, each cancelled at EVERY poll 0..40 (thorough: 0..120) "
              "through a context whose Done() closes on the k-th call: 13120 runs; required on the implementation alone: the error "
              "is \"execution interrupted\" and no host call other than deferred probes happens after the instant; and compared "
-             "with the model (result, trace, number of polls); exhaustive over programs x instants",
-        design_ref="DESIGN.md §4 C02", impl_oracle=impl_oracle, max_dropped=0.02,
+             "with the model (result, trace, number of polls); exhaustive over programs x instants; plus, in real time, 9 scenarios of "
+             "scripts blocked on or racing for channel operations (parallel ExecuteContext calls on one shared channel, script goroutines, "
+             "send / receive / two-value receive / for-in, capacities 0-2), 150 trials each (thorough: 3000): every call returns "
+             "\"execution interrupted\" within 2 s of the cancellation",
+        design_ref="DESIGN.md §4 C02", impl_oracle=impl_oracle, max_dropped=0.02, extra=stress(tier),
         extra_assumptions=["the cancellation instant is a poll index (statement start, loop iteration); wall-clock time and the Go "
                            "scheduler are not modelled: `within a short bounded time` is a bound on polls after the instant"])
